@@ -21,6 +21,9 @@ R06.8 lane-stack constants agree with the initial stack: a flush manager that te
 R06.9 one family per CPU class: under the same CPU facts the dispatchers of <algo>_ctx_mgr_init, _submit and _flush
       bind context layers of the same family (the lane stack, lane count and lens[] layout that init writes are
       the ones submit and flush of that family expect).
+R06.10 lane identifiers: where a manager init function writes lane numbers into lens[] (the SHA-512 managers keep the
+      lane index in the low half of each lens word and never rewrite it), it writes lens[j] = j for every lane j on
+      the free-lane stack it builds - replayed on the IR skeleton (lib/irskel.py), loops included.
 R06.5 field width: every write at a fixed offset into a scalar field of the manager struct (unused_lanes,
       num_lanes_inuse) starts at the field and has the field's width.
 R06.6 struct mirror: the offsets the assembly uses for job / manager / lane fields (nasm struct symbols) equal the
@@ -246,6 +249,68 @@ def run(chk):
                     lane_init[c] = iv[0]
     import cands
     import re as _re
+    import irskel
+    n610 = 0
+    for src, M in sorted(allmods.items()):
+        for F in M.defined():
+            if not _re.match(r"^_\w+_mb_mgr_init_\w+$", F.name) or not F.args:
+                continue
+            lens_m = ul_m = None
+            for sn, ds in M.distructs.items():
+                if sn.endswith("_MB_JOB_MGR"):
+                    for m_ in ds["members"]:
+                        if m_["name"] == "lens":
+                            lens_m = m_
+                        if m_["name"] == "unused_lanes":
+                            ul_m = m_
+            if lens_m is None or ul_m is None:
+                continue
+            try:
+                rr = irskel.run(F, [("p", "state", 0)] + [None] * (len(F.args) - 1))
+            except irskel.Unknown as e:
+                chk.broke("%s: IR skeleton not followed: %s" % (F.name, e))
+                continue
+            esz = None
+            lens_final = {}
+            ul_bytes = {}
+            for ev in rr.events:
+                if ev[0] != "store" or ev[1] != "state":
+                    continue
+                _, tag, o, size, v, I = ev
+                if lens_m["off"] <= o < lens_m["off"] + lens_m["size"] and isinstance(v, int):
+                    esz = size
+                    lens_final[(o - lens_m["off"]) // size] = v
+                if ul_m["off"] <= o < ul_m["off"] + ul_m["size"] and isinstance(v, int):
+                    for bb in range(size):
+                        ul_bytes[o - ul_m["off"] + bb] = (v >> (8 * bb)) & 0xFF
+            ids = {k: v for k, v in lens_final.items() if 0 < v < 64 and v == k}
+            if not ids or not ul_bytes:
+                continue            # this family does not keep lane numbers in lens[]
+            # lanes on the free-lane stack: nibbles or bytes up to the sentinel
+            raw = [ul_bytes.get(k, 0) for k in range(max(ul_bytes) + 1)]
+            bytewise = any(b_ == 0xFF for b_ in raw)
+            lanes = []
+            if bytewise:
+                for b_ in raw:
+                    if b_ == 0xFF:
+                        break
+                    lanes.append(b_)
+            else:
+                for b_ in raw:
+                    for nb in (b_ & 15, b_ >> 4):
+                        if nb == 15:
+                            break
+                        lanes.append(nb)
+                    else:
+                        continue
+                    break
+            n610 += 1
+            badl = [j for j in lanes if (lens_final.get(j, 0) & 0xFFFFFFFF) != j]
+            chk.obligation("R06.10", not badl, key=(src, F.name), sample={"unit": src, "function": F.name, "lanes_on_free_stack": lanes, "lens_words_written": len(lens_final)})
+            if badl:
+                j = badl[0]
+                chk.finding(Finding("R06.10", src, F.name, "lane-id:%d" % j, "lens[%d] is initialised to %d, but lane %d is on the free-lane stack and the managers take the lane number from the low half of lens[]: jobs in lane %d are attributed to lane %d" % (j, lens_final.get(j, 0) & 0xFFFFFFFF, j, j, lens_final.get(j, 0) & 0xFFFFFFFF), loc="%s:%s" % (F.file, F.line)))
+    chk.floor("manager init functions that keep lane numbers in lens[]", n610, 3)
 
     def group_of(iface):
         m = _re.match(r"^_(sha1|sha256|sha512|md5|sm3)_ctx_mgr_(init|submit|flush)$", iface)
